@@ -198,7 +198,17 @@ func cmdCheck(args []string) {
 			} else {
 				problems = append(problems, "rejected "+r.Key+": "+r.Err)
 			}
-			continue
+			// syntactic obligations decided before the translation stopped still count
+			var scans []*Obligation
+			for _, o := range r.VC.obls {
+				if o.Kind == "scan" && o.Result != nil {
+					scans = append(scans, o)
+				}
+			}
+			r.VC.obls = scans
+			if len(scans) == 0 {
+				continue
+			}
 		}
 		for _, e := range r.VC.errs {
 			problems = append(problems, r.Key+": "+e)
